@@ -58,7 +58,7 @@ Definition packet_size : N := 6144.
 Definition max_decompressed_size : N := 1048576.
 
 Record split_packet := mk_split {
-  sp_id : N; sp_total : N; sp_number : N; sp_size : N;
+  sp_header : N; sp_id : N; sp_total : N; sp_number : N; sp_size : N;
   sp_decompressed : option (N * N); sp_payload : bytes }.
 
 Definition read_u16 : R N := read_uint false 2.
@@ -70,14 +70,14 @@ Definition rest_bytes : R bytes := fun b => (remaining_bytes b, b).
 
 (* SplitPacket::new *)
 Definition split_new (e : engine) (protocol : N) : R split_packet :=
-  let* _header := read_u32 in
+  let* header := read_u32 in
   let* id := read_u32 in
   match e with
   | GoldSrc _ =>
       let* x := read_u8 in
       let '(lower, upper) := u8_lower_upper x in
       let* p := rest_bytes in
-      ret (mk_split id lower upper 0 None p)
+      ret (mk_split header id lower upper 0 None p)
   | Source _ =>
       let* total := read_u8 in
       let* number := read_u8 in
@@ -87,7 +87,7 @@ Definition split_new (e : engine) (protocol : N) : R split_packet :=
                    then let* a := read_u32 in let* b := read_u32 in ret (Some (a, b))
                    else ret None) in
       let* p := rest_bytes in
-      ret (mk_split id total number size dec p)
+      ret (mk_split header id total number size dec p)
   end.
 
 (* stable insertion sort by packet number (slice::sort_by is stable) *)
@@ -125,13 +125,16 @@ Section WithBunzip.
     fst ((let* _h := read_u32 in let* k := read_u8 in let* p := rest_bytes in ret (k, p)) (buf_new data)).
 
   (* the remaining total-1 datagrams of a split response *)
-  Fixpoint recv_chunks (k : nat) (e : engine) (protocol : N) (acc : list split_packet) : M (list split_packet) :=
+  Fixpoint recv_chunks (k : nat) (e : engine) (protocol : N) (first : split_packet) (acc : list split_packet)
+    : M (list split_packet) :=
     match k with
     | O => mret (rev acc)
     | S k' =>
         do* d := udp_recv (Some packet_size) in
         do* c := mlift (fst (split_new e protocol (buf_new d))) in
-        recv_chunks k' e protocol (c :: acc)
+        (* all packets of a response share the split header and the response id *)
+        if negb (sp_header c =? sp_header first) || negb (sp_id c =? sp_id first) then mfail PacketBad
+        else recv_chunks k' e protocol first (c :: acc)
     end.
 
   (* what is made of the collected split packets (first received one first) *)
@@ -154,7 +157,7 @@ Section WithBunzip.
     | header :: _ =>
         if header =? 254 then
           do* first := mlift (fst (split_new e protocol (buf_new data))) in
-          do* others := recv_chunks (N.to_nat (sp_total first) - 1) e protocol [] in
+          do* others := recv_chunks (N.to_nat (sp_total first) - 1) e protocol first [] in
           reassemble (first :: others)
         else mlift (packet_from data)
     end.
